@@ -99,6 +99,9 @@ class CreateTable(ASTNode):
                 if col.length is not None:
                     type = f'{type}({col.length})'
                 col_str = f'{col.name} {type}'
+                if col.default is not None:
+                    # `id id [(n)] DEFAULT id` of the grammar: the default was dropped and lost on re-parsing
+                    col_str += f' DEFAULT {col.default}'
                 if col.nullable is True:
                     col_str += ' NULL'
                 elif col.nullable is False:
